@@ -394,12 +394,60 @@ theorem serialLink_decodeEdge (c : OpCodec Ω) (opOf : Nat → Ω) (ordOf : Nat 
   simp only [serialLink, cs, cd, an, bn, rekey_range n e.src h1, rekey_range n e.dst h2]
   cases e; simp_all
 
+theorem modifyNode_shape {μ : Type} (s s' : Store Ω μ) (i : Nat) (f : NodeData Ω μ → NodeData Ω μ)
+    (h : modifyNode s i f = .ok s') : s'.root = s.root ∧ s'.nodes.length = s.nodes.length := by
+  unfold modifyNode at h
+  simp only [bind, Except.bind] at h
+  cases hg : getNode s i with
+  | error e => simp [hg] at h
+  | ok d =>
+    simp only [hg, pure, Except.pure] at h
+    injection h with h; subst h
+    simp [setNode]
+
+theorem addLink_shape {μ : Type} (s s' : Store Ω μ) (src dst : Port) (h : addLink s src dst = .ok s') :
+    s'.root = s.root ∧ s'.nodes.length = s.nodes.length := by
+  unfold addLink at h
+  simp only [bind, Except.bind] at h
+  split at h
+  · cases h
+  · rename_i s1 h1
+    obtain ⟨a1, a2⟩ := modifyNode_shape _ _ _ _ h1
+    obtain ⟨b1, b2⟩ := modifyNode_shape _ _ _ _ h
+    exact ⟨b1.trans a1, b2.trans a2⟩
+
+theorem loadEdges_shape (c : OpCodec Ω) : ∀ (es : List Edge) (s s' : St Ω), loadEdges c es s = .ok s' →
+    s'.root = s.root ∧ s'.nodes.length = s.nodes.length := by
+  intro es
+  induction es with
+  | nil => intro s s' h; simp [loadEdges] at h; subst h; exact ⟨rfl, rfl⟩
+  | cons e es ih =>
+    intro s s' h
+    unfold loadEdges at h
+    cases h1 : loadOffset c s e.src e.srcOff false with
+    | error er => simp [h1] at h
+    | ok so =>
+      simp only [h1] at h
+      cases h2 : loadOffset c s e.dst e.dstOff true with
+      | error er => simp [h2] at h
+      | ok d_ =>
+        simp only [h2] at h
+        cases h3 : Store.addLink s (e.src, so) (e.dst, d_) with
+        | error er => simp [h3, liftS] at h
+        | ok s1 =>
+          simp only [h3, liftS] at h
+          obtain ⟨a1, a2⟩ := addLink_shape _ _ _ _ h3
+          obtain ⟨b1, b2⟩ := ih s1 s' h
+          exact ⟨b1.trans a1, b2.trans a2⟩
+
 /-- **Load-then-save is the identity on documents in normal form** (given that the hierarchy walk
     of the loaded HUGR is index order, which holds because every parent index is smaller than its
     child's and siblings are loaded in index order — see `loaded_hierarchy_order`). -/
 theorem fromSerial_toSerial (c : OpCodec Ω) (d : Doc) (opOf : Nat → Ω) (parOf : Nat → Nat)
     (ordOf : Nat → Bool → Option Nat) (hn : NormalDoc c d opOf parOf ordOf) :
     ∃ s', fromSerial c d = .ok s' ∧ LInv s'.links ∧
+      (s'.root = 0 ∧ s'.nodes.length = d.nodes.length ∧ ∀ m, m < d.nodes.length → ∃ dm, getNode s' m = .ok dm ∧
+        childIdxs dm = (List.range d.nodes.length).filter (fun m' => decide (0 < m' ∧ parOf m' = m))) ∧
       (hierarchyOrder s' = .ok (List.range d.nodes.length) →
         ∃ d', toSerial c s' = .ok d' ∧ d'.nodes = d.nodes ∧ d'.edges = d.edges ∧ d'.metadata = d.metadata) := by
   obtain ⟨l, hml, hll, hlne⟩ := hn.md
@@ -422,7 +470,16 @@ theorem fromSerial_toSerial (c : OpCodec Ω) (d : Doc) (opOf : Nat → Ω) (parO
       | nil => exact absurd hd hn.nonempty
       | cons _ _ => rfl
     simp only [this, Bool.false_eq_true, if_false, ht, hs']
-  refine ⟨s', hfrom, hls, ?_⟩
+  have hshape : s'.root = 0 ∧ s'.nodes.length = d.nodes.length ∧ ∀ m, m < d.nodes.length → ∃ dm, getNode s' m = .ok dm ∧
+        childIdxs dm = (List.range d.nodes.length).filter (fun m' => decide (0 < m' ∧ parOf m' = m)) := by
+    obtain ⟨r1, r2⟩ := loadEdges_shape c d.edges t s' hs'
+    have hpos : 0 < d.nodes.length := List.length_pos_iff.mpr hn.nonempty
+    refine ⟨r1.trans (hti.root hpos), r2.trans hti.len, ?_⟩
+    intro m hm
+    obtain ⟨dm, e, _, _, _, ch⟩ := hti.node m hm
+    obtain ⟨dm', e', gr⟩ := G.fwd m dm e
+    exact ⟨dm', e', by unfold childIdxs at ch ⊢; rw [gr.children]; exact ch⟩
+  refine ⟨s', hfrom, hls, hshape, ?_⟩
   intro hord
   have hos : OpsAt c opOf ordOf d.nodes.length s' := hot.grow G
   -- nodes of the re-serialised document
